@@ -182,7 +182,8 @@ def draw_case(seed):
         orders.append({"order": list(p),
                        "queries": [qr.choice(["classes", "methods", "find", "present", "strings", "none", "none"]) for _ in p],
                        "empty_at": qr.randrange(len(p) + 1) if qr.random() < 0.15 else None})
-    return {"seed": seed, "model": model, "assignment": assignment, "orders": orders}
+    return {"seed": seed, "model": model, "assignment": assignment, "orders": orders,
+            "sched_seed": core.rng(seed, "sched").getrandbits(40), "preempt": core.rng(seed, "sched-rate").choice([0.005, 0.03, 0.1])}
 
 
 def _query(dx, what, model):
@@ -288,29 +289,57 @@ def execute(case):
             crossing += 1
     if crossing:
         probe("reference-crosses-dex-boundary", crossing)
-    for oi, o in enumerate(case["orders"]):
-        dx = Analysis()
-        pos_of = {}
-        for step, pi in enumerate(o["order"]):
-            if o.get("empty_at") == step:
-                if empty_raw is None:
-                    empty_raw, _ = dexasm.assemble({"classes": [], "strings_extra": []})
-                dx.add(dex.DEX(empty_raw))
-                probe("empty-dex-added")
+    import androguard
+    from simkit import threadsim
+    ag_prefix = os.path.dirname(os.path.abspath(androguard.__file__)) + os.sep
+    sched_base = case.get("sched_seed", case["seed"])
+    preempt = case.get("preempt", 0.03)
+    threads_seen = 0
+
+    def one_run(oi, o, sched_k):
+        """one history: Analysis(), add in order with interleaved queries, create_xref -- under the thread simulator, so
+        that threads the code under test may start are scheduled by the seed (no thread is started on the unchanged tree)"""
+        nonlocal units, empty_raw, threads_seen
+        with threadsim.Simulation((sched_base * 1000003 + oi * 101 + sched_k) & 0xFFFFFFFFFFFF, preempt=preempt,
+                                  trace_prefix=ag_prefix) as sim:
+            dx = Analysis()
+            pos_of = {}
+            for step, pi in enumerate(o["order"]):
+                if o.get("empty_at") == step:
+                    if empty_raw is None:
+                        empty_raw, _ = dexasm.assemble({"classes": [], "strings_extra": []})
+                    dx.add(dex.DEX(empty_raw))
+                    probe("empty-dex-added")
+                    units += 1
+                dx.add(dex.DEX(raws[pi]))
+                pos_of[pi] = step
                 units += 1
-            dx.add(dex.DEX(raws[pi]))
-            pos_of[pi] = step
+                q = o["queries"][step] if step < len(o["queries"]) else "none"
+                if q != "none":
+                    _query(dx, q, model)
+                    units += 1
+            dx.create_xref()
             units += 1
-            q = o["queries"][step] if step < len(o["queries"]) else "none"
-            if q != "none":
-                _query(dx, q, model)
-                units += 1
-        dx.create_xref()
-        units += 1
         S = summary(dx)
+        log.add(oi, "order", [o["order"], o["queries"], o.get("empty_at"), sched_k, sim.threads_started, sim.switches,
+                              len(S), core.digest_of(sorted(map(repr, S.items())))])
+        if sim.threads_started:
+            threads_seen += sim.threads_started
+            probe("threads-started-by-code-under-test", sim.threads_started)
+            probe("simulated-context-switches", sim.switches)
+        return S, pos_of, sim.threads_started
+
+    run_orders = []          # the order descriptor of every summary in `results`
+    for oi, o in enumerate(case["orders"]):
+        S, pos_of, nthreads = one_run(oi, o, 0)
         results.append(S)
-        log.add(oi, "order", [o["order"], o["queries"], o.get("empty_at"), len(S),
-                              core.digest_of(sorted(map(repr, S.items())))])
+        run_orders.append(o)
+        if nthreads:
+            # the code under test is concurrent: the same history again under other seeded interleavings
+            for k in (1, 2, 3):
+                S2, _, _ = one_run(oi, o, k)
+                results.append(S2)
+                run_orders.append(o)
         # callee defined in a later-added DEX?
         for t in S0:
             if t[0] == "m.to":
@@ -335,7 +364,7 @@ def execute(case):
             if a != b:
                 sig = classify(t, "missing" if b < a else "extra", part_of, "split")
                 problems.setdefault(sig, f"{t!r}: {a}x in the single-DEX analysis, {b}x with split {case['assignment']} "
-                                         f"order {case['orders'][oi]['order']}")
+                                         f"order {run_orders[oi]['order']}")
     k = len(set(case["assignment"]))
     return {"problems": sorted(problems.items()), "digest": log.digest(), "probes": probes, "units": units,
             "nontrivial": bool(k >= 2 and crossing), "log": log.events,
@@ -430,6 +459,7 @@ def write_replay(case, sig, msg, info):
         return None
     payload = {"property": PROP, "engine": "histsim", "seed": case["seed"], "config": {},
                "model": case.get("model"), "assignment": case.get("assignment"), "orders": case.get("orders"),
+               "sched_seed": case.get("sched_seed"), "preempt": case.get("preempt"),
                "apk": case.get("apk"),
                "ops": [["add"] + o["order"] for o in case.get("orders", [])], "decisions": [], "faults": [],
                "violation": {"class": sig.split(":")[1], "signature": sig, "message": sigs[sig]},
@@ -450,7 +480,8 @@ def run(tier):
 def replay(path):
     def rerun(rp):
         case = {"seed": rp["seed"], "apk": rp["apk"]} if rp.get("apk") else \
-            {"seed": rp["seed"], "model": rp["model"], "assignment": rp["assignment"], "orders": rp["orders"]}
+            {"seed": rp["seed"], "model": rp["model"], "assignment": rp["assignment"], "orders": rp["orders"],
+             "sched_seed": rp.get("sched_seed") or rp["seed"], "preempt": rp.get("preempt") or 0.03}
         out = execute(case)
         return {s for s, _ in out["problems"]}, out["digest"], [f"{s}: {m}" for s, m in out["problems"]]
     return driver.replay_common(__import__("checks.c16", fromlist=["x"]), path, rerun)
